@@ -125,7 +125,7 @@ def install_imul_monitor(S, key_prefix="hook/segment-imul"):
                     size = max(size, r1, r2)
                 except Exception:
                     ecc = 1.0
-                arc_term = 1e-9 * size * max(1.0, k / 10.0) * max(1.0, ecc / 100.0)
+                arc_term = 1e-9 * size * max(1.0, k / 10.0) * max(1.0, ecc / 100.0) + 8 * 2.3e-16 * S_ * ecc * ecc
             bound = 1e-11 * max(k, 1.0) * S_ + arc_term
             dev = max(math.hypot(a[0] - b[0], a[1] - b[1]) for a, b in zip(new, exp))
             ctx = active()
